@@ -286,7 +286,7 @@ def check_convert(ctx, rule_num, rule_obj):
     if f is None:
         ctx.bad(rule_num, "convert", "interchange::cjson::convert not found (failing closed)")
         return
-    b = ctx.region(None, policy="private", key=f["key"])
+    b = ctx.region(None, policy="private", key=f["key"], ps=True)
     bodies = [b] + [body_of(fx, ck) for ck in fx.closures_of.get(f["key"], [])]
     for g in fx.doc["fns"]:
         # closures of inlined private helpers
@@ -386,6 +386,36 @@ def check_convert(ctx, rule_num, rule_obj):
             no_exit = not b.continuing_exits(lp)
         okobj = key_from_member and whole and no_exit
         detail = "member key <- {%s}; whole-object loop: %s; no early exit: %s" % (", ".join(leaf_s(b, l) for l in kl), whole, no_exit)
+    if not ins:
+        # obj.iter().map(|(k, v)| ..).collect::<Result<BTreeMap<_, _>, _>>(): every member, keyed by a copy of its own key
+        for i, t in b.calls_named("std::iter::Iterator::collect", "std::iter::FromIterator::from_iter"):
+            if "BTreeMap<" not in " ".join(t.get("generics", [])):
+                continue
+            src = b.trace(t["args"][0], (), lambda tt: callee_name(tt) == "std::iter::Iterator::map")
+            whole = bool(src)
+            keyok = bool(src)
+            for l in src:
+                if not (l.kind == "call" and callee_name(l.data[1]) == "std::iter::Iterator::map") or \
+                        any(x in " ".join(l.via) for x in ("take", "skip", "filter", "step_by")):
+                    whole = keyok = False
+                    continue
+                mt = l.data[1]
+                it = b.trace(mt["args"][0])
+                if not (it and all(x.kind == "call" and callee_name(x.data[1]) == "serde_json::Map::iter" and
+                                   all(k == "param" and i_ == 1 for (k, i_, p) in root_ids(b, x.data[1]["args"][0])) and
+                                   not any(y in " ".join(x.via) for y in ("take", "skip", "filter", "step_by")) for x in it)):
+                    whole = False
+                p = op_place(mt["args"][1])
+                d = b.single_def(p["l"]) if p else None
+                if d and d.kind == "assign" and d.node["rv"].get("agg") == "closure":
+                    cr = ctx.region(None, policy="private", key=d.node["rv"]["closure_key"])
+                    kl = cr.trace({"l": 0, "p": []}, (OK, F0, F0)) or cr.trace({"l": 0, "p": []}, (F0,))
+                    if not (kl and all(x.kind == "param" and x.data == 2 and x.path[-1:] == (F0,) for x in kl)):
+                        keyok = False
+                else:
+                    keyok = False
+            okobj = whole and keyok
+            detail = "collected from map(..) over the whole source object: %s; each pair is keyed by a copy of the member's own key: %s" % (whole, keyok)
     ctx.inst(rule_obj, "every member of the source object is inserted", okobj, detail)
     # arrays: a push loop without early exit, or map(convert) over the whole array collected
     pushes = [(i, t) for (i, t) in b.calls_named("std::vec::Vec::push")]
